@@ -16,6 +16,7 @@ let handle fields =
                       (bytes_of_hex g2) (bytes_of_hex m2) (bytes_of_hex f2) (bytes_of_hex mu2)
                       (bytes_of_hex sf2) (bytes_of_hex c2) (z_of_str v2))
   | ["refused"; t] -> string_of_bool (holds_C04_refused (bytes_of_hex t))
+  | ["flag"; b] -> string_of_bool (b = "1")     (* a check made by the harness itself: destination left untouched *)
   | ["romtext"; rows] ->
     let rom = rom_of_rows (rows_of_str rows) in
     let rec drop n l = if n <= 0 then l else match l with [] -> [] | _ :: r -> drop (n - 1) r in
